@@ -36,6 +36,13 @@ def run(ctx: Ctx):
     from .common import generic_lints
 
     generic_lints(ctx)
+    from .common import dependency_footprints
+
+    dependency_footprints(ctx)
+    from .common import id_truthiness
+
+    id_truthiness(ctx)
+    element_transform_lookup(ctx)
 
 
 def provenance(ctx: Ctx):
@@ -258,3 +265,53 @@ def filters(ctx: Ctx):
             ctx.ob("hidden-filter", where, u(value)[:160], "every idx of the order passed `idx not in hidden`", verdict, "the assembled order keeps an idx only if it is not in the hidden set")
         ctx.count("hidden filters")
     ctx.require_min("hidden filters", 3)
+
+
+def element_transform_lookup(ctx: Ctx):
+    """Which transforms (hide ...) an element gets: the lookup of the element's id among the keys of the `elements`
+    transforms, evaluated (DECTAB) over the spellings that occur - the key is a JSON object name, so an int id arrives as
+    "3"; a datetime / digit-only alias id IS the string "1950".  Every (key spelling, id) pair that names the same
+    element must find the transforms."""
+    from ..dectab import DTop, ModelInterp, Raises
+    from ..stmts import resolver
+    from ..symex import Expander
+
+    els = ctx.repo.cls("dimension.py", "Elements")
+    m = ctx.repo.lookup(els, "from_typedef")
+    where = "dimension.py::Elements.from_typedef [element transforms lookup]"
+    if m is None:
+        raise AnalysisError("Elements.from_typedef vanished")
+    calls = [c for c in ast.walk(m.node) if isinstance(c, ast.Call) and u(c.func) == "_ElementTransforms" and c.args]
+    if not calls:
+        ctx.undecided("hidden-set.lookup", where, "no _ElementTransforms(...) construction found", "")
+        return
+    res = resolver(m.node, multi=False)
+    T = {"hide": True}
+    cases = [("int id, int key", {3: T}, 3), ("int id, string key", {"3": T}, 3), ("digit-string id (year / numeric alias)", {"1950": T}, "1950"), ("alias id", {"A0": T}, "A0"), ("negative int id, string key", {"-1": T}, -1)]
+    bad, n = [], 0
+    for variant in res(calls[0].args[0]):
+        e = Expander(ctx.repo, els, stop=lambda mm: False, self_name="cls").visit(variant)
+        for label, xf, eid in cases:
+            def atoms(x, xf=xf, eid=eid):
+                t = u(x)
+                if t == "all_xforms" or t == "dimension_transforms_dict.get('elements', {})":
+                    return xf
+                if t == "element_id" or t.startswith("_build_element_id("):
+                    return eid
+                raise KeyError
+
+            try:
+                got = ModelInterp(atoms).ev(e)
+            except Raises as r:
+                bad.append(f"{label}: raises {r.etype}")
+                continue
+            except DTop as t:
+                ctx.undecided("hidden-set.lookup", where, "DECTAB: " + str(t), "the element's transforms are found under either spelling of its id")
+                return
+            n += 1
+            if got != T:
+                bad.append(f"{label}: transforms not found (key {list(xf)[0]!r}, id {eid!r})")
+        break
+    ctx.count("element-transform lookup cases", n)
+    ctx.ob("hidden-set.lookup", where, bad or f"{n} (key spelling, id) cases", "the transforms keyed by the element's id are found whether the id is an int, its string, or a digit-only string id", not bad,
+           "an explicit hide on such an element is silently dropped: the element stays visible")
